@@ -12,8 +12,21 @@ import tempfile
 ROOT = os.path.dirname(os.path.dirname(os.path.abspath(__file__)))
 
 
-def run(tier):
+def run_for_property(pid):
+    """-> (mismatches, entries run) for the catalogue entries of one property (quiet)."""
+    import io, contextlib
+    buf = io.StringIO()
+    with contextlib.redirect_stdout(buf):
+        rc = run("quick", only_property=pid)
+    out = buf.getvalue()
+    ran = out.count("SELFTEST ") - out.count(" SKIP ")
+    return out.count("MISMATCH"), ran
+
+
+def run(tier, only_property=None):
     cat = json.load(open(os.path.join(ROOT, "selftest", "catalogue.json")))
+    if only_property:
+        cat = [e for e in cat if e["property"] == only_property]
     scratch = tempfile.mkdtemp(prefix="verif-selftest-")
     bad = 0
     try:
